@@ -183,8 +183,12 @@ class Generators(Part):
                     and max(abs(p['bounds'][0]), abs(p['bounds'][1])) < 1e6:
                 p['precision'] = case["precision"]
             params.append(p)
-        snap = [dict(p, bounds=list(p['bounds'])) for p in params]
         g = case["gen"]
+        if g == "fullfact" and case["cseed"] % 3 == 0:
+            # the full factorial uses nothing but the bounds and their mid-point: it also serves boxes wider than the largest double
+            # (finite bounds of opposite sign near the ends of the float range); the other generators document |bounds| <= 1e12
+            params[rng.randrange(dim)]['bounds'] = list(rng.choice([[-1e308, 1e308], [-1.5e308, 1.7e308], [-1.7e308, 1e300]]))
+        snap = [dict(p, bounds=list(p['bounds'])) for p in params]
         if g == "gen_vector":
             st, vs = observe(lambda: [VectorAndNumbers.gen_vector(params) for _ in range(case["n"] * 20)])
         else:
